@@ -34,6 +34,7 @@ CONSTANTS
     BurstSizes,                              \* sizes of application message bursts offered by Next
     PskIds,                                  \* external PSK identifiers
     PskValues,                               \* values a party may hold for a PSK id ("none" = does not hold it)
+    CapX, CapY,                              \* parties whose clients support the optional extension types X / Y
     MaxSucc,                                 \* bound on successor groups (re-init / branch) created in a behaviour
     JitterChoices,                           \* max_epoch_jitter settings of the observer (99999 = not configured)
     Deviations                               \* named deviations of mls-rs from the properties that the model follows (known findings)
@@ -140,19 +141,28 @@ ApplyUpdates(mode, upds, i, acc) ==
                         [acc EXCEPT !.tree = UpdateLeaf(acc.tree, it.by, nl),
                                     !.kept = acc.kept \o <<it>>, !.leaves = acc.leaves \cup {it.by}])
 
-RECURSIVE ApplyAdds(_, _, _, _)
-ApplyAdds(mode, adds, i, acc) ==
+\* Required capabilities (extension "caps").  The group-context-extensions value of the model is one number
+\* ver + 1000 * code: code bit 0 / bit 1 say that the group's RequiredCapabilities extension lists X / Y.
+\* A member's capabilities are those of its client (CapX, CapY); throw-away identities support everything.
+ReqOf(ext) == (IF (ext \div 1000) % 2 = 1 THEN {"X"} ELSE {}) \cup (IF (ext \div 1000) >= 2 THEN {"Y"} ELSE {})
+CapsOf(who) == IF who \notin Parties THEN {"X", "Y"}
+               ELSE (IF who \in CapX THEN {"X"} ELSE {}) \cup (IF who \in CapY THEN {"Y"} ELSE {})
+AllSupport(tree, req) == \A l \in OccupiedLeaves(tree) : req \subseteq CapsOf(Node(tree, 2 * l).who)
+
+RECURSIVE ApplyAdds(_, _, _, _, _)
+ApplyAdds(mode, req, adds, i, acc) ==
     \* acc = [tree, kept, err, added, start]
     IF i > Len(adds) THEN acc
     ELSE LET it == adds[i]
              kp == kps[it.kp]
              valid == kp.bad = "" /\ kp.owner \notin Members(acc.tree) /\ it.kp \notin {a[1] : a \in SeqSet(acc.added)}
+                      /\ req \subseteq CapsOf(kp.owner)          \* the key package supports what the (new) context requires
              v == Verdict(mode, it, valid)
          IN IF v = "err" THEN [acc EXCEPT !.err = "rule:add-duplicate"]
-            ELSE IF v = "drop" THEN ApplyAdds(mode, adds, i + 1, acc)
+            ELSE IF v = "drop" THEN ApplyAdds(mode, req, adds, i + 1, acc)
             ELSE LET l == NextEmptyLeaf(acc.tree, acc.start)
                      nl == MkLeaf(KpLeafKey(it.kp), kp.owner, kp.cv, "kp")
-                 IN ApplyAdds(mode, adds, i + 1,
+                 IN ApplyAdds(mode, req, adds, i + 1,
                         [acc EXCEPT !.tree = AddLeafAt(acc.tree, l, nl), !.kept = acc.kept \o <<it>>,
                                     !.added = acc.added \o <<<<it.kp, l>>>>, !.start = l])
 
@@ -213,7 +223,8 @@ FilterReinit(mode, items) ==
        ELSE IF others # <<>> THEN [items |-> others, err |-> ""]
        ELSE [items |-> <<reinits[1]>>, err |-> ""]
 
-ApplyProposals(mode, who, tree, committer, items0) ==
+RECURSIVE ApplyProposals(_, _, _, _, _, _)
+ApplyProposals(mode, who, tree, committer, items0, ext0) ==
     LET \* proposer / committer rules (filtering.rs)
         items == items0
         updNotCommitter == FilterSeq(items, LAMBDA it : ~(it.kind = "upd" /\ it.by = committer /\ Verdict(mode, it, FALSE) = "drop"))
@@ -231,7 +242,14 @@ ApplyProposals(mode, who, tree, committer, items0) ==
         rems == OfKind(its, "rem")
         r1 == ApplyRemoves(mode, tree, rems, Len(rems), [tree |-> tree, kept |-> <<>>, err |-> ""])
         r2 == ApplyUpdates(mode, OfKind(its, "upd"), 1, [tree |-> r1.tree, kept |-> <<>>, err |-> "", leaves |-> {}])
-        r3 == ApplyAdds(mode, OfKind(its, "add"), 1, [tree |-> r2.tree, kept |-> <<>>, err |-> "", added |-> <<>>, start |-> 0])
+        \* apply_proposals_with_new_capabilities: adds are judged in the context of the new extensions; afterwards
+        \* every member of the resulting tree must support what the new extensions require.  If not, a by-value
+        \* (or received) GCE fails the commit; a by-reference one is dropped by the sender and everything is applied
+        \* again in the context of the old extensions
+        gkept == OfKind(its, "gce")
+        ctxReq == ReqOf(IF gkept # <<>> THEN gkept[1].ver ELSE ext0)
+        r3 == ApplyAdds(mode, ctxReq, OfKind(its, "add"), 1, [tree |-> r2.tree, kept |-> <<>>, err |-> "", added |-> <<>>, start |-> 0])
+        gceBad == gkept # <<>> /\ ~AllSupport(r3.tree, ctxReq)
         \* bundle order: adds, removes, updates, psks, gce, reinit
         applied == r3.kept \o r1.kept \o r2.kept \o SelectSeq(its, LAMBDA it : it.kind \in {"psk", "rpsk"})
                    \o OfKind(its, "gce") \o OfKind(its, "reinit") \o OfKind(its, "extinit") \o OfKind(its, "custom")
@@ -243,6 +261,8 @@ ApplyProposals(mode, who, tree, committer, items0) ==
        ELSE IF r1.err # "" THEN Res(FALSE, r1.err, tree, <<>>, <<>>, {}, {})
        ELSE IF r2.err # "" THEN Res(FALSE, r2.err, tree, <<>>, <<>>, {}, {})
        ELSE IF r3.err # "" THEN Res(FALSE, r3.err, tree, <<>>, <<>>, {}, {})
+       ELSE IF gceBad /\ Verdict(mode, gkept[1], FALSE) = "err" THEN Res(FALSE, "rule:gce-unsupported", tree, <<>>, <<>>, {}, {})
+       ELSE IF gceBad THEN ApplyProposals(mode, who, tree, committer, SelectSeq(items0, LAMBDA it : it.kind # "gce"), ext0)
        ELSE Res(TRUE, "", Trim(r3.tree), applied, r3.added,
                 {it.target : it \in SeqSet(r1.kept)}, r2.leaves)
 
@@ -457,11 +477,12 @@ ProposeResumptionPsk(p, e) ==
     /\ "psk" \in Features /\ HasGroup(p) /\ e \in 0..grp[p].epoch
     /\ Propose(p, [kind |-> "rpsk", kp |-> 0, target |-> 0, pe |-> e], [pe |-> e])
 
-ProposeGce(p) ==
-    /\ "gce" \in Features /\ HasGroup(p)
+ReqCodes == IF "caps" \in Features THEN 0..3 ELSE {0}
+ProposeGce(p, code) ==
+    /\ "gce" \in Features /\ HasGroup(p) /\ code \in ReqCodes
     \* at most one by-reference GCE per epoch: which of two the committer keeps depends on hash-map order
     /\ ~\E j \in 1..Len(props) : props[j].kind = "gce" /\ props[j].ks = grp[p].ks
-    /\ Propose(p, [kind |-> "gce", kp |-> 0, target |-> 0, ver |-> Len(props) + 1], [ver |-> Len(props) + 1])
+    /\ Propose(p, [kind |-> "gce", kp |-> 0, target |-> 0, ver |-> Len(props) + 1 + 1000 * code], [ver |-> Len(props) + 1 + 1000 * code])
 
 ProposeCustom(p) ==
     /\ "custom" \in Features /\ HasGroup(p)
@@ -499,7 +520,7 @@ ByValueItems(g) ==
     \cup {[kind |-> "rem", ref |-> 0, by |-> g.leaf, target |-> l] : l \in LeafSlots(g.tree)}
     \cup (IF "psk" \in Features THEN {[kind |-> "psk", ref |-> 0, by |-> g.leaf, id |-> id] : id \in PskIds}
                                         \cup {[kind |-> "rpsk", ref |-> 0, by |-> g.leaf, epoch |-> e] : e \in 0..g.epoch} ELSE {})
-    \cup (IF "gce" \in Features THEN {[kind |-> "gce", ref |-> 0, by |-> g.leaf, ver |-> 100 + Len(commits)]} ELSE {})
+    \cup (IF "gce" \in Features THEN {[kind |-> "gce", ref |-> 0, by |-> g.leaf, ver |-> 100 + Len(commits) + 1000 * code] : code \in ReqCodes} ELSE {})
     \cup (IF "reinit" \in Features THEN {[kind |-> "reinit", ref |-> 0, by |-> g.leaf]} ELSE {})
     \cup (IF "custom" \in Features THEN {[kind |-> "custom", ref |-> 0, by |-> g.leaf, ver |-> 100 + Len(commits)]} ELSE {})
 
@@ -519,7 +540,7 @@ Commit(p, byval, dt) ==
         act == IF dt THEN "CommitDetached" ELSE "Commit"
         n == Len(commits) + 1
         items == CachedItems(g) \o byval
-        ar == ApplyProposals("send", p, g.tree, g.leaf, items)
+        ar == ApplyProposals("send", p, g.tree, g.leaf, items, g.ext)
         args == [byval |-> byval]
     IN
     /\ HasGroup(p) /\ Len(commits) < MaxCommits /\ g.epoch < MaxEpoch
@@ -586,7 +607,7 @@ ExternalCommit(q, p, resync) ==
         oldLeaf == IF inTree THEN LeafOf(g.tree, q) ELSE 0
         items == <<[kind |-> "extinit", ref |-> 0, by |-> NoLeaf]>>
                  \o (IF resync THEN <<[kind |-> "rem", ref |-> 0, by |-> NoLeaf, target |-> oldLeaf]>> ELSE <<>>)
-        ar == ApplyProposals("recv", q, g.tree, NoLeaf, items)
+        ar == ApplyProposals("recv", q, g.tree, NoLeaf, items, g.ext)
         l == NextEmptyLeaf(ar.tree, 0)
         newLeaf == MkLeaf(CommitLeafKey(n), q, 0, "commit")
         treeA == AddLeafAt(ar.tree, l, newLeaf)
@@ -602,6 +623,7 @@ ExternalCommit(q, p, resync) ==
               unused |-> {}, gen |-> 0, psks |-> <<>>, newExt |-> g.ext, reinit |-> FALSE, external |-> TRUE]
     IN
     /\ "extcommit" \in Features /\ HasGroup(p) /\ q # p /\ ~g.frozen
+    /\ ReqOf(g.ext) \subseteq CapsOf(q)
     /\ Len(commits) < MaxCommits /\ g.epoch < MaxEpoch
     /\ (resync => inTree)
     \* q holds no group, or (resync) a stale one that it gives up
@@ -681,7 +703,7 @@ DeliverCommit(q, n) ==
         c == commits[n]
         args == [commit |-> n]
         refs == {c.items[i].ref : i \in {i \in 1..Len(c.items) : IsByRef(c.items[i])}}
-        ar == ApplyProposals("recv", q, g.tree, CommitterOf(c), c.items)
+        ar == ApplyProposals("recv", q, g.tree, CommitterOf(c), c.items, g.ext)
         addedLeaves == {a[2] : a \in SeqSet(ar.added)}
     IN
     /\ n \in 1..Len(commits) /\ HasGroup(q)
@@ -979,7 +1001,7 @@ ObsDeliverProposal(j) ==
 ObsDeliverCommit(n) ==
     LET c == commits[n]
         refs == {c.items[i].ref : i \in {i \in 1..Len(c.items) : IsByRef(c.items[i])}}
-        ar == ApplyProposals("obs", Creator, obs.tree, CommitterOf(c), c.items)
+        ar == ApplyProposals("obs", Creator, obs.tree, CommitterOf(c), c.items, obs.ext)
         cl == IF c.external THEN NextEmptyLeaf(ar.tree, 0) ELSE c.byLeaf
         old == IF c.external THEN MkLeaf(CommitLeafKey(n), c.by, 0, "commit") ELSE Node(ar.tree, 2 * c.byLeaf)
         newLeaf == MkLeaf(CommitLeafKey(n), old.who, old.cv, "commit")
@@ -1024,7 +1046,7 @@ MemberNext ==
     \/ \E p \in Parties : \E why \in {"expired", "cred"} : GenBadKeyPackage(p, why)
     \/ \E p \in Parties : \E id \in PskIds : ProposePsk(p, id)
     \/ \E p \in Parties : \E e \in 0..MaxEpoch : ProposeResumptionPsk(p, e)
-    \/ \E p \in Parties : ProposeGce(p)
+    \/ \E p \in Parties : \E code \in ReqCodes : ProposeGce(p, code)
     \/ \E p \in Parties : ProposeReinit(p)
     \/ \E p \in Parties : ProposeCustom(p)
     \/ \E q \in Parties : \E j \in 1..Len(props) : DeliverProposal(q, j)
@@ -1264,7 +1286,7 @@ SendImpliesRecv ==
         LET c == commits[n]
             refs == {c.items[i].ref : i \in {i \in 1..Len(c.items) : IsByRef(c.items[i])}}
         IN (HasGroup(q) /\ grp[q].ks = c.baseKs /\ q # c.by /\ refs \subseteq grp[q].cache) =>
-              LET ar == ApplyProposals("recv", q, grp[q].tree, CommitterOf(c), c.items) IN
+              LET ar == ApplyProposals("recv", q, grp[q].tree, CommitterOf(c), c.items, grp[q].ext) IN
               \/ (~ar.ok /\ ar.err = "rule:psk-unknown")      \* a member that does not hold a PSK must reject
               \/ (ar.ok /\ ar.applied = c.items /\ ar.added = c.added /\ ar.removed = c.removed)
 
